@@ -27,7 +27,8 @@ SHARDS = {'quick': 4, 'thorough': 16}
 TIME_BUDGET = {'quick': 40, 'thorough': 240}
 
 TYPESETS = [['A'], ['A', 'B'], ['A', 'B', 'C'], ['A', 'B', 'C', 'D'], ['polymer', 'solvent'], ['B', 'A'],
-            ['C', 'A', 'B'], ['x1', 'x2', 'x10'], [1, 2, 3], ['AA', 'A', 'AAA']]
+            ['C', 'A', 'B'], ['x1', 'x2', 'x10'], [1, 2, 3], ['AA', 'A', 'AAA'],
+            ['A', 1], ['polymer', 1, 2], [1, 'B', 2.5, 'D'], ['1', 1, 'A']]          # labels of mixed kinds in one list ('1' and 1 are different labels)
 
 
 class Val(object):
@@ -289,6 +290,9 @@ def run_pairtable(ctx, types, steps):
             h = T[a, b]
             if h is not None:
                 ctx.hook('pt.isolation_probe')
+                if upair(a, b) not in model:
+                    ctx.violation('pt:wrong-write-observed', '%s: pair (%r,%r) was never assigned but reads %r' % (where, a, b, h))
+                    return reassign
                 payload_of(h).append(('m', st[3]))
                 model[upair(a, b)][1] = model[upair(a, b)][1] + [('m', st[3])]
         elif op == 'mutate_caller':
